@@ -73,6 +73,8 @@ def run_case(case, rng):
             bs = kwargs.get("belief_set", args[1] if len(args) > 1 else None)
             captured.append(dict(belief_set=np.array(bs, copy=True), alphas=np.array(out["alpha_vectors"], copy=True),
                                  iterations=int(out["iterations"])))
+    from mon import defaults as Dflt
+    Dflt.in_force(case, "PointBasedValueIteration", PointBasedValueIteration(), passed={})     # a planner built with no arguments
     pbvi = PointBasedValueIteration(min_belief_expansions=minexp, max_belief_expansions=minexp + 2,
                                     value_convergence_epsilon=eps, horizon=horizon)
     if rng.random() < 0.3:
